@@ -34,7 +34,7 @@ from rpft.rapidpro.models.nodes import (
     SwitchRouterNode,
     TransferAirtimeNode,
 )
-from rpft.rapidpro.models.routers import SwitchRouter
+from rpft.rapidpro.models.routers import RouterCase, SwitchRouter
 
 LOGGER = get_logger()
 
@@ -154,7 +154,7 @@ class NoOpNodeGroup:
         # We now have a router_node
         # TODO: Code duplication here, especially with respect to default values.
         # Same functionality is in RowNodeGroup
-        if not condition.value:
+        if not condition.value and condition.type not in RouterCase.NO_ARGS_TESTS:
             self.router_node.update_default_exit(destination_uuid)
         else:
             self.router_node.add_choice(
